@@ -157,6 +157,42 @@ def re_to_z3(pattern, flags=0):
     return seqn(tree)
 
 
+def split_trailing_lookahead(nodes):
+    """(core nodes, nodes of the character class of a trailing negative look-ahead `(?![...])` or None)"""
+    try:
+        import re._constants as sre
+    except ImportError:
+        import sre_constants as sre
+    nodes = list(nodes)
+    if nodes and nodes[-1][0] is sre.ASSERT_NOT:
+        direction, sub = nodes[-1][1]
+        sub = list(sub)
+        if direction == 1 and len(sub) == 1 and sub[0][0] in (sre.IN, sre.LITERAL):
+            return nodes[:-1], sub
+        raise Untranslatable('look-ahead other than a trailing negative single-character class')
+    return nodes, None
+
+
+def re_prefix_to_z3(pattern_nodes, flags=0):
+    """the language { w : the rule matches a PREFIX of w } - what matters for first-match pre-emption. A trailing negative
+    look-ahead `R(?![C])` matches a prefix p of w iff p in L(R) and the next character of w (if any) is not in C."""
+    S = z3.StringSort()
+    any_ = z3.AllChar(z3.ReSort(S))
+    core, la = split_trailing_lookahead(pattern_nodes)
+    r = re_to_z3(core, flags)
+    if la is None:
+        return z3.Concat(r, z3.Star(any_))
+    c = re_to_z3(la, flags)
+    notc = z3.Intersect(any_, z3.Complement(c))
+    return z3.Concat(r, z3.Union(z3.Re(z3.StringVal('')), z3.Concat(notc, z3.Star(any_))))
+
+
+def re_whole_to_z3(pattern_nodes, flags=0):
+    """the language of complete lexemes of a rule (a trailing look-ahead is satisfied at the end of the text)"""
+    core, la = split_trailing_lookahead(pattern_nodes)
+    return re_to_z3(core, flags)
+
+
 def rule_pattern(lexer_cls, rule):
     """the pattern text of a t_* rule of the real lexer class (docstring of the function or string attribute)"""
     r = getattr(lexer_cls, rule)
